@@ -120,3 +120,118 @@ example : canFitInto (tower [true, false, true] (.iint 32)) (tower [false, false
   simp [tower, canFitInto, mutOk, isFuncEquiv, Ty.mightBeWeak]
 
 end CapyV.C14Fit
+
+/-! ## towers with slice levels
+
+A slice is a writable view of its elements (`s[i] = v` needs no `^mut`), so below a slice level
+nothing may change either. -/
+namespace CapyV.C14Fit
+open CapyV CapyV.Ty
+
+/-- one level of a tower: a pointer with its mutability, or a slice -/
+inductive Level where
+  | ptr (m : Bool)
+  | slice
+  deriving DecidableEq, Repr
+
+def Level.wrap : Level → Ty → Ty
+  | .ptr m, t => .pointer m t
+  | .slice, t => .slice t
+
+/-- same constructor (pointer / slice), whatever the mutability -/
+def Level.sameKind : Level → Level → Bool
+  | .ptr _, .ptr _ => true
+  | .slice, .slice => true
+  | _, _ => false
+
+def mtower (ls : List Level) (base : Ty) : Ty := ls.foldr Level.wrap base
+
+@[simp] theorem mtower_nil (b : Ty) : mtower [] b = b := rfl
+@[simp] theorem mtower_cons (l : Level) (ls : List Level) (b : Ty) :
+    mtower (l :: ls) b = l.wrap (mtower ls b) := rfl
+
+theorem mtower_mightBeWeak (ls : List Level) (b : Ty) : (mtower ls b).mightBeWeak = b.mightBeWeak := by
+  induction ls with
+  | nil => rfl
+  | cons l ls ih => cases l <;> simp [Level.wrap, Ty.mightBeWeak, ih]
+
+/-- two towers of the same shape -/
+def sameShape : List Level → List Level → Bool
+  | [], [] => true
+  | a :: as, b :: bs => a.sameKind b && sameShape as bs
+  | _, _ => false
+
+theorem funcEquiv_mtower (s d : List Level) (b : Ty) (hs : sameShape s d = true)
+    (h : isFuncEquiv (mtower s b) (mtower d b) false = true) : s = d := by
+  induction s generalizing d with
+  | nil => cases d with
+    | nil => rfl
+    | cons _ _ => simp [sameShape] at hs
+  | cons x s ih => cases d with
+    | nil => simp [sameShape] at hs
+    | cons y d =>
+      simp only [sameShape, Bool.and_eq_true] at hs
+      cases x <;> cases y <;> simp only [Level.sameKind] at hs
+      · simp only [mtower_cons, Level.wrap] at h
+        rw [isFuncEquiv] at h
+        simp only [Bool.and_eq_true, beq_iff_eq] at h
+        rw [h.1, ih d hs.2 h.2]
+      · cases hs.1
+      · cases hs.1
+      · simp only [mtower_cons, Level.wrap] at h
+        rw [isFuncEquiv] at h
+        rw [ih d hs.2 h]
+
+theorem eq_mtower (s d : List Level) (b : Ty) (hs : sameShape s d = true)
+    (h : mtower s b = mtower d b) : s = d := by
+  induction s generalizing d with
+  | nil => cases d with
+    | nil => rfl
+    | cons _ _ => simp [sameShape] at hs
+  | cons x s ih => cases d with
+    | nil => simp [sameShape] at hs
+    | cons y d =>
+      simp only [sameShape, Bool.and_eq_true] at hs
+      cases x <;> cases y <;> simp only [Level.sameKind] at hs
+      · simp only [mtower_cons, Level.wrap] at h
+        injection h with h1 h2
+        rw [h1, ih d hs.2 h2]
+      · cases hs.1
+      · cases hs.1
+      · simp only [mtower_cons, Level.wrap] at h
+        injection h with h2
+        rw [ih d hs.2 h2]
+
+/-- **below the outermost level nothing changes**, whether that level is a pointer or a slice -/
+theorem mfit_invariant_below_top (x y : Level) (s d : List Level) (b : Ty) (hb : b.mightBeWeak = false)
+    (hs : sameShape (x :: s) (y :: d) = true)
+    (h : canFitInto (mtower (x :: s) b) (mtower (y :: d) b) = true) : s = d := by
+  simp only [sameShape, Bool.and_eq_true] at hs
+  cases x <;> cases y <;> simp only [Level.sameKind] at hs
+  · rename_i m m'
+    simp only [mtower_cons, Level.wrap] at h
+    have := fit_pointer m m' _ _ (by rw [mtower_mightBeWeak]; exact hb) h
+    rcases this.2 with he | he
+    · exact eq_mtower s d b hs.2 he
+    · exact funcEquiv_mtower s d b hs.2 he
+  · cases hs.1
+  · cases hs.1
+  · simp only [mtower_cons, Level.wrap] at h
+    rw [canFitInto] at h
+    split at h
+    · rename_i heq
+      injection heq with h2
+      exact eq_mtower s d b hs.2 h2
+    · exact funcEquiv_mtower s d b hs.2 h
+
+/-- a slice of mutable pointers is not accepted where a slice of immutable pointers is expected
+(through the slice, an immutable pointer could be stored into an array of `^mut T`) -/
+theorem no_const_cast_hole_slice (b : Ty) (hb : b.mightBeWeak = false) :
+    canFitInto (.slice (.pointer true b)) (.slice (.pointer false b)) = false := by
+  cases h : canFitInto (.slice (.pointer true b)) (.slice (.pointer false b)) with
+  | false => rfl
+  | true =>
+    have := mfit_invariant_below_top .slice .slice [.ptr true] [.ptr false] b hb rfl (by simpa [Level.wrap] using h)
+    simp at this
+
+end CapyV.C14Fit
